@@ -181,6 +181,9 @@ func rulesStruct(p *pkg, name, file string, want map[string]string) *ast.TypeSpe
 				if got := typeText(fl.Type); got != wt {
 					p.bad(fl, "%s.%s has type %s, the model expects %s", name, fn, got, wt)
 				}
+				if wt == "sync.RWMutex" && importsAt(p, fl.Pos())["sync"] != "sync" {
+					p.bad(fl, "%s.%s: sync is not the standard library's package sync in this file", name, fn)
+				}
 				seen[fn] = true
 			}
 			for fn := range want {
